@@ -12,6 +12,11 @@ import sys
 
 ROOT = os.path.dirname(os.path.dirname(os.path.abspath(__file__)))
 HINTS = {
+    'm11': ('prefer a clause of the statement or a part of the quantified domain that none of them touches; look at the '
+            'upper and lower ends of the quantified domain (the largest sizes, budgets and counts it names, the smallest '
+            'ones: one atom, one residue, one record, one step), at branches of the anchored code that ordinary inputs never '
+            'reach, at errors that are small (1e-9 .. 1e-6 relative) but systematic, at behaviour that differs between the '
+            'first call and later calls of a process, and at what the statement promises about inputs that are refused'),
     'm10': ('prefer a clause of the statement or a part of the quantified domain that none of them touches; think of two '
             'cooperating sites that each look fine alone, of a shared helper (an __eq__, __hash__, copy, a small parsing or '
             'formatting function, a default argument) changed for another reason, of sorting keys and stability, of string '
